@@ -366,6 +366,9 @@ func runOne(l *Loaded, h HarnessCfg, params map[string]int, nworkers int, solver
 	// vacuity: every static vReach / vAssert id must have been reached
 	src := harnessSource(h.Pkg)
 	reach, asserts := staticIDs(src, h.Fn)
+	if sh.stoppedEarly {
+		reach, asserts = nil, nil
+	}
 	for _, id := range reach {
 		if sh.reach[id] == 0 {
 			res.Vacuous = append(res.Vacuous, "reach:"+id)
